@@ -228,6 +228,11 @@ pub fn random_layout(t: &mut Tape) -> Layout {
         let p = *t.choose(&["target/debug/build/gen.rs", "target/x.rs", ".git/hooks/pre.rs", "target/release/deps/y/z.rs"]);
         files.push(FileM::Rust { path: p.into(), items: vec![ItemM::Command { name: fresh_name("excluded_cmd_"), attr: "#[tauri::command]".into(), extra_before: vec![], extra_after: vec![], vis: "pub ".into(), is_async: false, ret: None, with_param: false }] });
     }
+    // the same below a nested target/ or .git/ directory (a member crate's build output, a vendored checkout)
+    if t.chance(1, 3) {
+        let p = *t.choose(&["crates/core/target/debug/build/x/out/gen.rs", "src/target/y.rs", "vendor/dep/.git/hooks/z.rs", "src/commands/target/release/w.rs"]);
+        files.push(FileM::Rust { path: p.into(), items: vec![ItemM::Command { name: fresh_name("nested_excluded_cmd_"), attr: "#[tauri::command]".into(), extra_before: vec![], extra_after: vec![], vis: "pub ".into(), is_async: false, ret: None, with_param: false }] });
+    }
     // non-.rs files that look like Rust
     if t.chance(1, 3) {
         let p = *t.choose(&["src/notes.txt", "src/old.rs.bak", "README.md", "src/cmd.rs.orig", "src/rs"]);
@@ -390,7 +395,7 @@ fn random_case(t: &mut Tape) -> (Layout, &'static str) {
 }
 
 pub fn run(ctx: &Ctx) {
-    ctx.set_rule("directory layouts of 1-6 .rs files at depth 0-4, decoy files below top-level target/ and .git/, non-.rs files, 0-2 unparsable .rs files; items: commands with 5 attribute spellings, extra attributes before/after, 4 visibilities, async/sync, 10 shallow return types; decoys: helper fns with 10 look-alike attributes, #[tauri::command] inside impl blocks and inline modules; both modes; evaluation = one generation run (plus the metamorphic re-run without the unparsable files); non-trivial = >=2 .rs files, >=1 command, >=1 decoy; distinct by (rendered layout, mode)");
+    ctx.set_rule("directory layouts of 1-6 .rs files at depth 0-4, decoy files below target/ and .git/ directories at the top level and nested, non-.rs files, 0-2 unparsable .rs files; items: commands with 5 attribute spellings, extra attributes before/after, 4 visibilities, async/sync, 10 shallow return types; decoys: helper fns with 10 look-alike attributes, #[tauri::command] inside impl blocks and inline modules; both modes; evaluation = one generation run (plus the metamorphic re-run without the unparsable files); non-trivial = >=2 .rs files, >=1 command, >=1 decoy; distinct by (rendered layout, mode)");
     ctx.set_exhaustive(false);
     ctx.assume("expected command set is computed from the layout model; return types are shallow so that C05's classes do not interfere");
     let cases = ctx.tier.pick(1200, 30000);
